@@ -84,11 +84,18 @@ theorem ppwLen_setW (s : St) (w : Nat) (x : Worker) (h : w < s.ws.length) :
 
 /-! ### primitive updates -/
 
-/-- configuration the theorems are about: retry on, results returned, no user enqueue function -/
-structure Plain (c : Cfg) : Prop where
+/-- configuration of the *safety* theorems (conservation, exactly-once, no IndexError, genuine partial
+    results): retry on, results returned - and **any** user `enqueue_fn` (`c.refuse` is arbitrary) -/
+structure Retrying (c : Cfg) : Prop where
   retry : c.retry = true
   rr : c.returnResults = true
+
+/-- configuration of the liveness / failure-report theorems: additionally no user enqueue function
+    (with one, `handle_death` can livelock: `C07_livelock_witness`) -/
+structure Plain (c : Cfg) : Prop extends Retrying c where
   noFn : ∀ w i, c.refuse w i = false
+
+instance {c : Cfg} : Coe (Plain c) (Retrying c) := ⟨Plain.toRetrying⟩
 
 @[simp] theorem setW_src (s : St) (w : Nat) (x : Worker) : (setW s w x).src = s.src := rfl
 @[simp] theorem setW_retries (s : St) (w : Nat) (x : Worker) : (setW s w x).retries = s.retries := rfl
@@ -137,7 +144,7 @@ theorem inv_nextInputs {src0 F : List Inp} {s : St} (h : Inv src0 F s) :
           omega
         · intro hd'; exact absurd hd' (by simpa using hd)
 
-theorem inv_unused {c : Cfg} (hc : Plain c) {src0 F : List Inp} {s : St} {inp : Inp} (fr : Bool)
+theorem inv_unused {c : Cfg} (hc : Retrying c) {src0 F : List Inp} {s : St} {inp : Inp} (fr : Bool)
     (h : Inv src0 (inp :: F) s) : Inv src0 F (unused c s inp fr) ∧ (unused c s inp fr).ws = s.ws := by
   cases fr
   · refine ⟨⟨by simpa [unused, hc.retry] using h.ws, by simpa [unused, hc.retry, ppwLen] using h.pending, ?_,
@@ -190,7 +197,7 @@ theorem inv_doEnqueue {src0 F : List Inp} {s : St} {inp : Inp} {w : Nat} (h : In
     omega
   · rw [hde]; exact h.depl
 
-theorem inv_markDead {c : Cfg} (hc : Plain c) {src0 F : List Inp} {s : St} {w : Nat} (h : Inv src0 F s)
+theorem inv_markDead {c : Cfg} (hc : Retrying c) {src0 F : List Inp} {s : St} {w : Nat} (h : Inv src0 F s)
     (hw : w < s.ws.length) :
     Inv src0 F (markDead c s w) ∧ (markDead c s w).ws.length = s.ws.length ∧
     (getW (markDead c s w) w).closed = true := by
@@ -258,7 +265,7 @@ theorem inv_pop_retry {src0 F : List Inp} {s : St} {inp : Inp} {rest : List Inp}
   simp only [cnt, ppwCount, hr, List.count_cons] at this ⊢
   omega
 
-theorem inv_settle {c : Cfg} (hc : Plain c) {pick : List Nat → Option Nat} (hp : PickOK pick) {src0 : List Inp} :
+theorem inv_settle {c : Cfg} (hc : Retrying c) {pick : List Nat → Option Nat} (hp : PickOK pick) {src0 : List Inp} :
     ∀ (fuel : Nat) (F : List Inp) (s : St), Inv src0 F s →
       Inv src0 F (settle c pick fuel s) ∧ (settle c pick fuel s).ws.length = s.ws.length := by
   intro fuel
@@ -281,10 +288,16 @@ theorem inv_settle {c : Cfg} (hc : Plain c) {pick : List Nat → Option Nat} (hp
       cases hpk : pick (idle s) with
       | none => exact ⟨h, rfl⟩
       | some w =>
-        simp only [hc.noFn, Bool.false_eq_true, if_false]
         obtain ⟨hw, hppw, hcl⟩ := mem_idle (hp _ _ hpk)
         have h1 := inv_pop_retry h hr
         have hg : getW { s with retries := rest } w = getW s w := rfl
+        by_cases hrf : c.refuse w inp = true
+        · -- enqueue_fn refused: the input goes back to the head of the retry list (state unchanged)
+          simp only [hrf, if_true]
+          obtain ⟨h3, l3⟩ := ih F { s with retries := inp :: rest }
+            (inv_congr h rfl rfl (by simp [hr]) rfl rfl rfl h.nopop)
+          exact ⟨h3, by rw [l3]⟩
+        simp only [hrf, Bool.false_eq_true, if_false]
         by_cases ha : (getW s w).alive = true
         · simp only [hg, ha, if_true]
           obtain ⟨h2, l2⟩ := inv_doEnqueue (s := { s with retries := rest }) h1 hw (by rw [hg]; exact ha) (by rw [hg]; exact hcl)
@@ -298,7 +311,7 @@ theorem inv_settle {c : Cfg} (hc : Plain c) {pick : List Nat → Option Nat} (hp
           refine ⟨h5, ?_⟩
           rw [l5, l4, l3, l2]
 
-theorem inv_handleDeath {c : Cfg} (hc : Plain c) {pick : List Nat → Option Nat} (hp : PickOK pick)
+theorem inv_handleDeath {c : Cfg} (hc : Retrying c) {pick : List Nat → Option Nat} (hp : PickOK pick)
     {src0 F : List Inp} {s : St} {w : Nat} (h : Inv src0 F s) (hw : w < s.ws.length) :
     Inv src0 F (handleDeath c pick s w) ∧ (handleDeath c pick s w).ws.length = s.ws.length := by
   unfold handleDeath
@@ -306,7 +319,7 @@ theorem inv_handleDeath {c : Cfg} (hc : Plain c) {pick : List Nat → Option Nat
   obtain ⟨h2, l2⟩ := inv_settle hc hp _ F _ h1
   exact ⟨h2, by rw [l2, l1]⟩
 
-theorem inv_tryEnqueue {c : Cfg} (hc : Plain c) {pick : List Nat → Option Nat} (hp : PickOK pick)
+theorem inv_tryEnqueue {c : Cfg} (hc : Retrying c) {pick : List Nat → Option Nat} (hp : PickOK pick)
     {src0 F : List Inp} {s : St} {w : Nat} (h : Inv src0 F s) (hw : w < s.ws.length) :
     Inv src0 F (tryEnqueue c pick s w).1 ∧ (tryEnqueue c pick s w).1.ws.length = s.ws.length := by
   unfold tryEnqueue
@@ -319,12 +332,16 @@ theorem inv_tryEnqueue {c : Cfg} (hc : Plain c) {pick : List Nat → Option Nat}
     obtain ⟨fr, inp⟩ := p
     obtain ⟨h1, hws⟩ := hn
     have hw' : w < s'.ws.length := by rw [hws]; exact hw
-    simp only [hc.noFn, Bool.false_eq_true, if_false]
     by_cases hcl : (getW s' w).closed = true
     · simp only [hcl, if_true]
       obtain ⟨h2, l2⟩ := inv_unused hc fr h1
       exact ⟨h2, by rw [l2, hws]⟩
     · simp only [hcl, Bool.false_eq_true, if_false]
+      by_cases hrf : c.refuse w inp = true
+      · simp only [hrf, if_true]
+        obtain ⟨h2, l2⟩ := inv_unused hc fr h1
+        exact ⟨h2, by rw [l2, hws]⟩
+      simp only [hrf, Bool.false_eq_true, if_false]
       by_cases ha : (getW s' w).alive = true
       · simp only [ha, if_true]
         obtain ⟨h2, l2⟩ := inv_doEnqueue h1 hw' ha (by simpa using hcl)
@@ -336,7 +353,7 @@ theorem inv_tryEnqueue {c : Cfg} (hc : Plain c) {pick : List Nat → Option Nat}
 
 /-! ### first_enqueue -/
 
-theorem inv_firstRound {c : Cfg} (hc : Plain c) {pick : List Nat → Option Nat} (hp : PickOK pick) {src0 F : List Inp} :
+theorem inv_firstRound {c : Cfg} (hc : Retrying c) {pick : List Nat → Option Nat} (hp : PickOK pick) {src0 F : List Inp} :
     ∀ (n k : Nat) (s : St), Inv src0 F s → k + n ≤ s.ws.length →
       Inv src0 F (firstRound c pick n k s).1 ∧ (firstRound c pick n k s).1.ws.length = s.ws.length := by
   intro n
@@ -358,7 +375,7 @@ theorem inv_firstRound {c : Cfg} (hc : Plain c) {pick : List Nat → Option Nat}
         obtain ⟨h2, l2⟩ := ih (k + 1) s' h1 (by simp at l1; omega)
         exact ⟨h2, by rw [l2]; exact l1⟩
 
-theorem inv_firstEnqueue {c : Cfg} (hc : Plain c) {pick : List Nat → Option Nat} (hp : PickOK pick) {src0 F : List Inp} :
+theorem inv_firstEnqueue {c : Cfg} (hc : Retrying c) {pick : List Nat → Option Nat} (hp : PickOK pick) {src0 F : List Inp} :
     ∀ (rounds : Nat) (s : St), Inv src0 F s →
       Inv src0 F (firstEnqueue c pick rounds s) ∧ (firstEnqueue c pick rounds s).ws.length = s.ws.length := by
   intro rounds
@@ -399,7 +416,7 @@ theorem inv_setW_samePpw {src0 F : List Inp} {s : St} {w : Nat} {x : Worker} (h 
     simp only [cnt, setW_src, setW_retries, setW_ret] at hc ⊢
     omega
 
-theorem inv_onPoll {c : Cfg} (hc : Plain c) {pick : List Nat → Option Nat} (hp : PickOK pick)
+theorem inv_onPoll {c : Cfg} (hc : Retrying c) {pick : List Nat → Option Nat} (hp : PickOK pick)
     {src0 : List Inp} {s : St} {w : Nat} (h : Inv src0 [] s) (hw : w < s.ws.length) :
     Inv src0 [] (onPoll c pick s w) ∧ (onPoll c pick s w).ws.length = s.ws.length := by
   have hx := h.ws _ (getW_mem s w hw)
@@ -493,7 +510,7 @@ theorem getW_oob (s : St) (w : Nat) (h : ¬ w < s.ws.length) : getW s w = {} := 
 theorem setW_oob (s : St) (w : Nat) (x : Worker) (h : ¬ w < s.ws.length) : setW s w x = s := by
   simp [setW, List.set_eq_of_length_le (by omega : s.ws.length ≤ w)]
 
-theorem inv_step {c : Cfg} (hc : Plain c) {pick : List Nat → Option Nat} (hp : PickOK pick)
+theorem inv_step {c : Cfg} (hc : Retrying c) {pick : List Nat → Option Nat} (hp : PickOK pick)
     {src0 : List Inp} {s : St} (ev : Ev) (h : Inv src0 [] s) :
     Inv src0 [] (step c pick s ev) ∧ (step c pick s ev).ws.length = s.ws.length := by
   cases ev with
@@ -564,7 +581,7 @@ theorem inv_step {c : Cfg} (hc : Plain c) {pick : List Nat → Option Nat} (hp :
       exact key ws s h
     · exact ⟨h, rfl⟩
 
-theorem inv_runEvents {c : Cfg} (hc : Plain c) {pick : List Nat → Option Nat} (hp : PickOK pick) {src0 : List Inp} :
+theorem inv_runEvents {c : Cfg} (hc : Retrying c) {pick : List Nat → Option Nat} (hp : PickOK pick) {src0 : List Inp} :
     ∀ (evs : List Ev) (s : St), Inv src0 [] s → Inv src0 [] (runEvents c pick s evs) := by
   intro evs
   induction evs with
@@ -589,7 +606,7 @@ theorem inv_init (n : Nat) (src : List Inp) : Inv src [] (initSt n src) := by
       | succ n ih => simp [List.replicate_succ] at ih ⊢
     simp [this]
 
-theorem inv_start {c : Cfg} (hc : Plain c) {pick : List Nat → Option Nat} (hp : PickOK pick)
+theorem inv_start {c : Cfg} (hc : Retrying c) {pick : List Nat → Option Nat} (hp : PickOK pick)
     (n : Nat) (src : List Inp) (pre : List Ev) : Inv src [] (start c pick n src pre) := by
   unfold start
   have h0 : Inv src [] (pre.foldl (step c pick) (initSt n src)) := by
